@@ -44,6 +44,11 @@ func fullKey(rm *protocol.ResolutionModel, err error) string {
 
 func rfc3339(t uint64) string { return time.Unix(int64(t), 0).UTC().Format(time.RFC3339) }
 
+// rfc3339In spells the same instant with another UTC offset (RFC 3339 allows any).
+func rfc3339In(t uint64, offsetMinutes int) string {
+	return time.Unix(int64(t), 0).In(time.FixedZone("", offsetMinutes*60)).Format(time.RFC3339)
+}
+
 func restResolve(pc protocol.Client, suffix string, ops []*ref.Op, query string) (int, string) {
 	store := hx.NewOpStore()
 	var pub []*ref.Op
@@ -74,7 +79,7 @@ func restResolve(pc protocol.Client, suffix string, ops []*ref.Op, query string)
 }
 
 func checkC06(c *hx.Ctx) {
-	c.Rule("random histories over the operation alphabet (forks, failing deltas, recovers, deactivates, duplicate creates, unpublished operations stamped inside or after the anchored time range) with pairwise distinct coordinates; a third of the histories is also queried with a random part of the operations supplied through WithAdditionalOperations; for every cut time T (each operation time, each gap, before the first, after the last) Resolve(H, versionTime=T) must equal Resolve of H restricted to time<=T, and for every canonical reference V Resolve(H, versionId=V) must equal Resolve of the prefix of H (in (time,number) order) ending at V; unknown ids and times before the first operation must fail; a slice also goes through the REST resolve handler; full resolution models including operation lists are compared; non-trivial = cut strictly inside the history")
+	c.Rule("random histories over the operation alphabet (forks, failing deltas, recovers, deactivates, duplicate creates, unpublished operations stamped inside or after the anchored time range) with pairwise distinct coordinates; version times are also spelled with non-UTC offsets, and the REST slice also uses ledger times far ahead of any wall clock; a third of the histories is also queried with a random part of the operations supplied through WithAdditionalOperations; for every cut time T (each operation time, each gap, before the first, after the last) Resolve(H, versionTime=T) must equal Resolve of H restricted to time<=T, and for every canonical reference V Resolve(H, versionId=V) must equal Resolve of the prefix of H (in (time,number) order) ending at V; unknown ids and times before the first operation must fail; a slice also goes through the REST resolve handler; full resolution models including operation lists are compared; non-trivial = cut strictly inside the history")
 	nCases := c.N(400, 8000)
 	root := c.Rng("cases")
 	seeds := make([]uint64, nCases)
@@ -174,6 +179,17 @@ func checkC06(c *hx.Ctx) {
 				c.Violation(fmt.Sprintf("C06 Resolve(versionTime=%d) differs from resolution of the truncated history: [%s]\n   filtered:  %s\n   truncated: %s", T, histString(H), kF, kT), replay)
 				return
 			}
+			if i%4 == 1 {
+				// the same instant spelled with another UTC offset
+				off := hx.Pick(r, []int{300, -300, 330, -720, 840, 1})
+				rmZ, errZ := SUTResolve(pc, u.Suffix, H, nil, document.WithVersionTime(rfc3339In(T, off)))
+				if kZ := fullKey(rmZ, errZ); kZ != kF {
+					replay["spelling"], replay["utc_spelling"] = rfc3339In(T, off), rfc3339(T)
+					c.Violation(fmt.Sprintf("C06 Resolve(versionTime=%s) differs from Resolve(versionTime=%s), the same instant: [%s]\n   offset spelling: %s\n   UTC spelling:    %s", rfc3339In(T, off), rfc3339(T), histString(H), kZ, kF), replay)
+					return
+				}
+				c.Count("version_time_offset_spellings")
+			}
 			if i%3 == 0 {
 				// the same query with part of the operations supplied through WithAdditionalOperations
 				split := make([]int, len(H))
@@ -249,6 +265,18 @@ func checkC06(c *hx.Ctx) {
 				}
 			}
 			T := cuts[r.Intn(len(cuts))]
+			if i%16 == 8 {
+				// a ledger whose (logical) time runs far ahead of any wall clock: the resolver's own clock must not matter
+				const ahead = 4000000000
+				shifted := make([]*ref.Op, len(pubOnly))
+				for k, o := range pubOnly {
+					cp := *o
+					cp.Time += ahead
+					shifted[k] = &cp
+				}
+				pubOnly, T = shifted, T+ahead
+				c.Count("rest_comparisons_ahead_of_the_wall_clock")
+			}
 			var trunc []*ref.Op
 			for _, o := range pubOnly {
 				if o.Time <= T {
@@ -256,7 +284,11 @@ func checkC06(c *hx.Ctx) {
 				}
 			}
 			c.Eval()
-			codeF, bodyF := restResolve(pc, u.Suffix, pubOnly, "?versionTime="+url.QueryEscape(rfc3339(T)))
+			spelling := rfc3339(T)
+			if i%16 == 0 {
+				spelling = rfc3339In(T, hx.Pick(r, []int{300, -300, 330}))
+			}
+			codeF, bodyF := restResolve(pc, u.Suffix, pubOnly, "?versionTime="+url.QueryEscape(spelling))
 			if len(trunc) == 0 {
 				if codeF == 200 {
 					c.Violation(fmt.Sprintf("C06 REST versionTime=%d before first operation returned 200: [%s]", T, histString(pubOnly)), map[string]interface{}{"history": replayOps(pubOnly), "versionTime": T})
@@ -316,6 +348,8 @@ func checkC06(c *hx.Ctx) {
 	c.Floor("inner_id_cuts", 200)
 	c.Floor("time_before_first_rejected", 50)
 	c.Floor("rest_comparisons", 10)
+	c.Floor("rest_comparisons_ahead_of_the_wall_clock", 5)
+	c.Floor("version_time_offset_spellings", 200)
 	c.Floor("longform_bad_version_rejected", 20)
 }
 
